@@ -263,6 +263,16 @@ fn lib_render(input: &str, o: &Opts, fmt: &str, theme: Option<&str>) -> Result<R
         if let (Some(t), "html") = (theme, fmt) {
             plugins.render.codefence_syntax_highlighter = Some(adapter_for(t));
         }
+        // without a highlighter the documented rendering is what the string entry points return (the binary
+        // goes through the `_with_plugins` variants: the two families must not drift apart)
+        if !(theme.is_some() && fmt == "html") {
+            let s = match fmt {
+                "html" => comrak::markdown_to_html(input, &opts),
+                "xml" => comrak::markdown_to_commonmark_xml(input, &opts),
+                _ => comrak::markdown_to_commonmark(input, &opts),
+            };
+            return Ok(Rendered { out: s.into_bytes(), has_code });
+        }
         let r = match fmt {
             "html" => comrak::format_html_with_plugins(root, &opts, &mut out, &plugins),
             "xml" => comrak::format_xml_with_plugins(root, &opts, &mut out, &plugins),
